@@ -268,7 +268,7 @@ def r4_order(report, repo):
   f = repo.func(TE, 'TestExecutor._thread_proc')
   g = lib.cfg(f)
   order = ['self._execute_test_start', 'self._initialize_plugs',
-           'self._execute_node', 'self._execute_test_diagnosers']
+           'self._execute_node', 'self._execute_test_diagnoser']
   nodes = {}
   for nm in order:
     ns = lib.nodes_with_call(g, name=nm)
